@@ -211,8 +211,9 @@ def guards_clause(model, rep, funcs):
         rep.instance("GUARD", f.loc())
         M = Matcher(f)
         b = {}
-        ok = M.all_of(["$p = np.atleast_2d(pos).astype($$t)", "if $p.shape[1] != 3:\n    raise $$e", "$n = $p.shape[0]", "self._pos = $p", "self._rotator = rot",
-                       "self.features = features"], b)[0] and (M.has("$n > 0 and $n != len(rot)", b) or M.has("$n != len(rot)", b)) and s.count("raise") >= 3
+        ok = M.all_of(["$p = np.atleast_2d(pos).astype($$t)", "if $p.shape[1] != 3:\n    raise $$_", "$n = $p.shape[0]", "self._pos = $p", "self._rotator = rot",
+                       "self.features = features"], b)[0] and \
+            (M.has("if $n > 0 and $n != len(rot):\n    raise $$_", b) or M.has("if $n != len(rot):\n    raise $$_", b)) and s.count("raise") >= 3
         rep.ob("GUARD", f.anchor, "the constructor rejects (N,3)-violating positions and rotation-count mismatch and routes features through the validating setter",
                ok, "", node=f.node, fn=f, clause="3 guards", stmt="def __init__ guards")
     f = funcs.get(MC + "to_dataframe")
